@@ -164,7 +164,7 @@ namespace
     };
 #define FB(f) (1u << (f))
     const unsigned ALL_FAM = FB(F_POOL) | FB(F_COLL) | FB(F_STACK) | FB(F_ITER) | FB(F_STATIC)
-                             | FB(F_LOWLEVEL);
+                             | FB(F_LOWLEVEL) | FB(F_TEMP);
     // weights:                an  aa tn ta de ov mk uw ni sh rs mc ma sw zo sp cy dr fb ex pr af ru
     const Mode modes[] = {
         {"C01", O_CORE | O_NOREPORT | O_FILL, ALL_FAM,
@@ -343,7 +343,7 @@ namespace
 
         bool contained(const char* p, size_t n) const
         {
-            if (s->fam == F_LOWLEVEL)
+            if (s->fam == F_LOWLEVEL || s->fam == F_TEMP)
             {
 #ifdef VF_ASAN
                 return __asan_region_is_poisoned(const_cast<char*>(p), n) == nullptr;
